@@ -138,3 +138,77 @@ def api_hours(slice_, timeout):
 def api_hours__replay(slice_, cex):
     r = api_hours(slice_, 0)
     return {'reproduced': r['state'] == 'counterexample', 'detail': r['detail']}
+
+
+# ---- date + time: ChineseDateTimeParser._merge_date_and_time ---------------------------------------------------------------------------
+from recognizers_date_time.date_time.chinese.datetime_parser import ChineseDateTimeParser  # noqa: E402
+from recognizers_date_time.date_time.parsers import DateTimeParseResult  # noqa: E402
+from recognizers_date_time.date_time.utilities import DateTimeResolutionResult  # noqa: E402
+from recognizers_text.extractor import ExtractResult  # noqa: E402
+
+_ZDT = sys.modules[DT + 'chinese.datetime_parser']
+env.assert_repo(_ZDT)
+if ENGINE == 'sx':
+    for _n, _v in (('datetime', symdate.sdatetime), ('timedelta', symdate.stimedelta)):
+        if hasattr(_ZDT, _n):
+            setattr(_ZDT, _n, _v)
+ZDTP = ChineseDateTimeParser()
+F62 = sl('f62', '')          # 'only': explore just the region of finding F62
+
+
+class _OneExtractor:
+    def __init__(self, er):
+        self.er = er
+
+    def extract(self, source, reference=None):
+        return [self.er]
+
+
+class _OneParser:
+    def __init__(self, pr):
+        self.pr = pr
+
+    def parse(self, er, reference=None):
+        return self.pr
+
+
+def _in_f62(h, e):
+    """the merge step re-applies a morning / evening shift that the time parser has already decided: an evening word with 12 (= 24:00, hour 0 of the
+    value) becomes noon, a morning word (早 / 晨) with an hour from 12 on loses twelve hours"""
+    if DESC in LOW:
+        return '晚' in DESC and e == 24
+    return ('早' in DESC or '晨' in DESC) and h >= 12
+
+
+def h_zh_date_and_time(y: int, mo: int, d: int, h: int, m: int, s: int):
+    """'<date><day-part word><time>': the date-time is composed of that date and of the time as the time parser resolves it alone"""
+    assert 1900 <= y <= 2099 and 1 <= mo <= 12 and 1 <= d <= 28 and 0 <= h <= 24 and 0 <= m <= 59 and 0 <= s <= 59
+    assert _natural(h)
+    digits.reset()
+    tpr = _run(h, m, s)                                  # the real time parser on the real extractor match (hour / minute / second symbolic)
+    assert tpr.value is not None and tpr.value.success
+    tx = digits._join(digits._norm(digits.decode(tpr.timex_str)))
+    e = tx[1][0]
+    symx_assume = __import__('lib.symx', fromlist=['assume']).assume
+    symx_assume(_in_f62(h, e) == (F62 == 'only'))
+    dv = DateTimeResolutionResult()
+    dv.success = True
+    dv.timex = DateTimeFormatUtil.luis_date(y, mo, d)
+    dv.future_value = dv.past_value = datetime(y, mo, d)
+    der = ExtractResult()
+    der.start, der.length, der.text, der.type = 0, 4, 'dddd', Constants.SYS_DATETIME_DATE
+    dpr = DateTimeParseResult(der)
+    dpr.value, dpr.timex_str = dv, dv.timex
+    ter = ExtractResult()
+    text = 'dddd' + DESC + TEMPLATE[FORM]
+    ter.start, ter.length, ter.text, ter.type = 4, len(text) - 4, text[4:], Constants.SYS_DATETIME_TIME
+    ZDTP.config._date_extractor, ZDTP.config._time_extractor = _OneExtractor(der), _OneExtractor(ter)
+    ZDTP.config._date_parser, ZDTP.config._time_parser = _OneParser(dpr), _OneParser(tpr)
+    r = ZDTP._merge_date_and_time(text, datetime(2016, 11, 7, 7, 30))
+    assert r.success
+    tv = tpr.value.future_value
+    for v in (r.future_value, r.past_value):
+        assert (v.year, v.month, v.day) == (y, mo, d), ('date part', r.timex)
+        assert (v.hour, v.minute, v.second) == (tv.hour, tv.minute, tv.second), ('the time of the date-time differs from the time resolved alone', r.timex, (tv.hour, tv.minute, tv.second))
+    j = digits._join(digits._norm(digits.decode(r.timex)))
+    assert len(j) >= 7 and (j[0][0], j[2][0], j[4][0]) == (y, mo, d) and j[5] == 'T' and j[6][0] == tv.hour, ('TIMEX of the date-time', r.timex)
